@@ -94,6 +94,24 @@ func parserCases(c *core.Ctx, unit int, filter func(lib.Parser) bool, fn func(pc
 			}
 			fn(pcase{p: p, in: r.Bytes(ln), class: "random", shape: gen.Shape{"len": ln}})
 		})
+		if p.Kind == "kac_elg_ed" || p.Kind == "kac_x_ed" {
+			// the readers for one fixed pair of key types, given certificates that declare every other
+			// pair (all defined codes and a few unknown ones): same total size or not, they are not
+			// this reader's types
+			sigs := []int{0, 1, 2, 3, 4, 5, 6, 7, 8, 9, 10, 11, 12, 255, 65280, 65535}
+			crs := []int{0, 1, 2, 3, 4, 5, 6, 7, 8, 255, 65280, 65535}
+			c.Job("foreign-types/"+p.ID(), len(sigs)*len(crs), func(i int, r *core.Rand) {
+				sg, cr := sigs[i%len(sigs)], crs[i/len(sigs)]
+				k, sh := gen.KACOf(r, 7, map[string]int{"kac_elg_ed": 0, "kac_x_ed": 4}[p.Kind])
+				extra := []byte(nil)
+				if r.Chance(1, 4) {
+					extra = r.Bytes(1 + r.Pick(8))
+				}
+				k.Cert = rm.KeyCert(sg, cr, extra)
+				sh["sig"], sh["crypto"], sh["cert"] = sg, cr, "KEY(foreign types)"
+				fn(pcase{p: p, in: k.Encode(), class: "foreign-key-types", shape: sh})
+			})
+		}
 		if p.Kind == "rinfo" {
 			// a non-zero peer_size followed by that many 32-byte router hashes (what the field meant
 			// before it became "unused, always zero"), by one hash too few, or by none
